@@ -74,6 +74,19 @@ BMPString_constraint(const asn_TYPE_descriptor_t *td, const void *sptr,
                         "%s: invalid size %" ASN_PRI_SIZE " not divisible by 2 (%s:%d)",
                         td->name, st->size, __FILE__, __LINE__);
             return -1;
+        } else {
+            /* The two noncharacters, as every generated checker does */
+            const uint8_t *ch = st->buf;
+            const uint8_t *end = ch + st->size;
+            for(; ch < end; ch += 2) {
+                if(ch[0] == 0xff && ch[1] >= 0xfe) {
+                    ASN__CTFAIL(app_key, td, sptr,
+                                "%s: value unit %ld is not a character (%s:%d)",
+                                td->name, (long)((ch - st->buf) / 2), __FILE__,
+                                __LINE__);
+                    return -1;
+                }
+            }
         }
     } else {
         ASN__CTFAIL(app_key, td, sptr, "%s: value not given (%s:%d)", td->name,
